@@ -154,4 +154,14 @@ pub fn drive_eea(t: &mut Tracer, tier: &str, seed: u64) {
         eea_event(t, &sess(), &key, count, rng.below(32) as u32, rng.below(2) as u32, len, &msg);
         eia_event(t, &sess(), &key, count, rng.below(32) as u32, rng.below(2) as u32, len, &msg);
     }
+    // very long messages (up to 65 504 bits, the 3GPP maximum): rare events of the keystream generator (a carry that needs a second fold, about once
+    // per 1200 LFSR steps) are reached through EEA3 / EIA3 themselves, incl. structured keys
+    for i in 0..(if thorough { 24 } else { 5 }) {
+        let len = 40000 + rng.below(25504) as u32;
+        let key = match i % 5 { 3 => vec![0u8; 16], 4 => vec![0xffu8; 16], _ => rng.bytes(16) };
+        let count = rng.next() as u32;
+        let msg = words(&mut rng, ((len + 31) / 32) as usize);
+        eea_event(t, &sess(), &key, count, rng.below(32) as u32, rng.below(2) as u32, len, &msg);
+        eia_event(t, &sess(), &key, count, rng.below(32) as u32, rng.below(2) as u32, len, &msg);
+    }
 }
